@@ -93,7 +93,7 @@ def proj_write(op, out):
 
 TRIVIAL = {'init', 'dump', 'wf', 'lookup_all', 'reset_world'}
 
-def correspondence(ctx, session_fns, project, oracle, what, stream_name, driver='drv_api.c', impl_env=None, extra=(), san=None):
+def correspondence(ctx, session_fns, project, oracle, what, stream_name, driver='drv_api.c', impl_env=None, extra=(), san=None, model_is_spec=True):
     """Run each session (a callable (impl, rng, stats) driving the harness interactively) on the
     implementation, replay the recorded ops on the model, compare the projected outputs and
     evaluate the direct oracle on the implementation's outputs."""
@@ -148,8 +148,15 @@ def correspondence(ctx, session_fns, project, oracle, what, stream_name, driver=
                 mini = shrink(exe, work, ops[:i + 1], still, impl_env=impl_env)
                 io2, _, _ = run_impl_batch(exe, os.path.join(work, 'scratch'), mini, impl_env)
                 mo2, _, _ = vlib.run_model(mini)
-                ctx['violation']('failing-input', '%s: implementation and model (the proved specification) disagree on op %r' % (what, (mini[-1] if mini else o)[:200]),
-                                 {'ops': mini, 'impl': io2[-3:], 'model': mo2[-3:], 'stream': stream_name}, True)
+                if model_is_spec:
+                    ctx['violation']('failing-input', '%s: implementation and model (the proved specification) disagree on op %r' % (what, (mini[-1] if mini else o)[:200]),
+                                     {'ops': mini, 'impl': io2[-3:], 'model': mo2[-3:], 'stream': stream_name}, True)
+                else:
+                    # the property's own predicate (direct oracle) held on everything explored; what broke is the tie between
+                    # the model the theorems are about and the code
+                    ctx['violation']('broken-correspondence', '%s: the %s correspondence no longer holds (op %r); the direct oracle found no input on which the property itself fails' % (what, stream_name, (mini[-1] if mini else o)[:200]),
+                                     {'ops': mini, 'impl': io2[-3:], 'model': mo2[-3:], 'stream': stream_name,
+                                      'no_longer_checks': 'correspondence stream %r between lean/LibconfigModel (theorems %s) and the implementation' % (stream_name, ctx['prop'])}, False)
                 break
     cov = ctx['cov']
     cov['evaluations'] = cov.get('evaluations', 0) + total
@@ -162,12 +169,12 @@ def correspondence(ctx, session_fns, project, oracle, what, stream_name, driver=
     cov['samples'] = cov.get('samples', []) + samples
     cov['traces_validated_against_impl'] = cov.get('traces_validated_against_impl', 0) + n_sessions
 
-def api_correspondence(ctx, profiles, sessions, n_ops, project, oracle, what, stream_name='api'):
+def api_correspondence(ctx, profiles, sessions, n_ops, project, oracle, what, stream_name='api', model_is_spec=True):
     fns = []
     for profile in profiles:
         for _ in range(sessions):
             fns.append(lambda impl, rng, stats, profile=profile: gen_api.session(impl, rng, n_ops, profile, stats))
-    correspondence(ctx, fns, project, oracle, what, stream_name)
+    correspondence(ctx, fns, project, oracle, what, stream_name, model_is_spec=model_is_spec)
 
 def hash_str(s):
     h = 0
@@ -262,9 +269,9 @@ def exhaustive_histories(depth):
 def run_C04(ctx):
     s, n = sizes(ctx, (6, 250), (40, 600))
     d = 3 if ctx['tier'] == 'quick' else 4
-    correspondence(ctx, [exhaustive_histories(d)], proj_shape, oracle_wf, 'C04 well-formedness', 'exhaustive<=%d' % d)
+    correspondence(ctx, [exhaustive_histories(d)], proj_shape, oracle_wf, 'C04 well-formedness', 'exhaustive<=%d' % d, model_is_spec=False)
     ctx['cov']['exhaustive_histories'] = {'alphabet': small_alphabet(), 'max_len': d}
-    api_correspondence(ctx, ['structure'], s, n, proj_shape, oracle_wf, 'C04 well-formedness')
+    api_correspondence(ctx, ['structure'], s, n, proj_shape, oracle_wf, 'C04 well-formedness', model_is_spec=False)
 
 def run_C05(ctx):
     s, n = sizes(ctx, (6, 250), (40, 600))
